@@ -187,7 +187,7 @@ func evalPath(node *jparse.PathNode, data reflect.Value, env *environment) (refl
 		_, isVar = step0.Expr.(*jparse.VariableNode)
 	}
 
-	output := data
+	output := jtypes.Resolve(data)
 	if isVar || !jtypes.IsArray(data) {
 		output = reflect.MakeSlice(typeInterfaceSlice, 1, 1)
 		if data.IsValid() {
